@@ -1,6 +1,8 @@
 package mon
 
 import (
+	sdk "github.com/cosmos/cosmos-sdk/types"
+	govtypes "github.com/cosmos/cosmos-sdk/x/gov/types"
 	"math/big"
 	"math/rand"
 	"sort"
@@ -55,6 +57,7 @@ func runVestScenarioOpts(c *fw.Case, profile string, families bool, props ...str
 	if e != nil {
 		e.profile = profile
 		e.trackFamilies = families
+		e.govOwner = true
 	}
 	if err != nil {
 		if p := asPanic(err); p != nil {
@@ -72,6 +75,14 @@ func runVestScenarioOpts(c *fw.Case, profile string, families bool, props ...str
 	if _, err := e.n.BeginBlock(now); err != nil {
 		c.Inconclusive("beginblock: %v", err)
 		return nil
+	}
+	// the governance account gets coins of its own (as it does through deposits and plain
+	// transfers): from then on it can own pools like anybody else
+	if e.govOwner {
+		funds := sdk.NewCoins(sdk.NewCoin(vDenom, sdk.NewInt(1_000_000_000_000)), sdk.NewCoin("foo", sdk.NewInt(1_000_000_000)))
+		if err := e.n.App.BankKeeper.SendCoinsFromAccountToModule(e.n.Ctx(), e.owners[0].Addr, govtypes.ModuleName, funds); err != nil {
+			e.govOwner = false
+		}
 	}
 	var descs []string
 	failed, succeeded := 0, 0
